@@ -318,7 +318,9 @@ package vegeta
 //@   property C13
 //@   ensures result != nil
 //@ func NewCSVEncoder
-//@   property C13
+//@   property C13 C07 C08
+//@   forbid [the-csv-writer-keeps-its-default-dialect] store enc.UseCRLF
+//@   forbid [the-csv-writer-keeps-its-default-separator] store enc.Comma
 //@   ensures result != nil
 //@ func NewJSONEncoder
 //@   property C13
@@ -499,7 +501,10 @@ package vegeta
 //@   at call Set: assert [C06-attack-name-header] arg1 == "X-Vegeta-Attack" ==> arg2 == atk.name && atk.name != "" ;
 //@        assert [C06-seq-header-matches-result] arg1 == "X-Vegeta-Seq" ==> arg2 == fmtint(res.Seq, 10) ;
 //@        ghost seqHeader = seqHeader || arg1 == "X-Vegeta-Seq" ; ghost nameHeader = nameHeader || arg1 == "X-Vegeta-Attack"
+//@   ghost reqLen int = 0
+//@   at call Request: ghost reqLen = (result0 == nil ? 0 : result0.ContentLength)
 //@   before call Do: assert [C06-headers-injected-before-send] seqHeader && (atk.name != "" ==> nameHeader) ;
+//@        assert [C06-declared-body-length-untouched] arg1.ContentLength == reqLen ;
 //@        assert [C06-request-is-the-targets] arg1.Method == tgt.Method && req_url(arg1) == tgt.URL ;
 //@        assert [C05-timestamp-before-transport] res.Timestamp <= clock(0) ;
 //@        ghost t0 = clock(0)
@@ -514,6 +519,7 @@ package vegeta
 //@   ensures [C06-method-and-url] !targeterFailed ==> result.Method == tgt.Method && result.URL == tgt.URL
 //@   ensures [C06-attack-name-and-seq] result.Attack == atk.name && result.Seq == seqAtLock
 //@   ensures [C06-bytes-in-is-captured-length] result.BytesIn == len(result.Body)
+//@   ensures [C06-bytes-out-is-the-request-body-length] didDo && doOK && reqLen != -1 ==> result.BytesOut == reqLen
 //@   ensures [C06-failed-exchange-has-error-and-no-success-code] result.Error == "" ==> didDo && doOK && 200 <= result.Code && result.Code < 400
 //@   ensures [C06-status-error-mapping] didDo && doOK && result.Code != 0 ==> result.Code == status && (result.Error == "" <==> (200 <= result.Code && result.Code < 400))
 //@   ensures [C06-body-closed-and-drained] didDo && doOK ==> bclosed(body) && (remaining(body) == 0 || rfault(body))
@@ -956,18 +962,20 @@ package vegeta
 // returned decoder read the stream from the position r had at entry (contiguity is the precondition
 // of io.MultiReader, the tee precondition says the buffer is in step with the source).
 //@ func DecoderFor
-//@   property C08 C16
+//@   property C08 C16 C09 C13
 //@   requires [live-source] r != nil && live(r) && rsrc(r) == ref(r) && consumed(r) >= 0
 //@   ghost start int = consumed(r)
 //@   ghost trialOK bool = false
-//@   at call Decode: ghost trialOK = (result == nil)
+//@   ghost trials int = 0
+//@   at call Decode: ghost trialOK = (result == nil) ; ghost trials = trials + 1
 //@   at alloc buf: ghost rsrc(&buf) = ref(r) ; ghost rfrom(&buf) = consumed(r) ; ghost rto(&buf) = consumed(r) ; ghost teeof(&buf) = 0 ; ghost live(&buf) = false ; ghost rempty(&buf) = false
 //@   before call dec x2: assert [every-decoder-reads-from-the-first-record] rsrc(arg0) == ref(r) && rfrom(arg0) == start
 //@   ensures [nothing-lost-nothing-replayed] result != nil ==> rsrc(dreader(result)) == ref(r) && rfrom(dreader(result)) == start && rto(dreader(result)) == -1
 //@   ensures [decoder-only-after-its-trial-decoded-a-record] result != nil ==> trialOK
+//@   ensures [one-record-is-enough-to-detect-an-encoding] trials <= 3
 //@   ensures [decoder-at-its-first-record] result != nil ==> dpos(result) == 0 && dlen(result) >= 0
 //@   loop 1
-//@     invariant -1 <= rangeindex && rangeindex < 3 && r == old(r) && live(r) && rsrc(r) == ref(r) && !trialOK
+//@     invariant -1 <= rangeindex && rangeindex < 3 && r == old(r) && live(r) && rsrc(r) == ref(r) && !trialOK && trials == rangeindex + 1
 //@     invariant rsrc(&buf) == ref(r) && rfrom(&buf) == start && rto(&buf) == consumed(r) && !live(&buf) && !rempty(&buf) && (teeof(&buf) == 0 || teeof(&buf) == ref(r)) && consumed(r) >= start
 //@     decreases 3 - rangeindex
 
